@@ -14,7 +14,7 @@ Hypothesis Hok : params_ok (c_p c).
 Variable bs : Z.
 Hypothesis Hbs : 0 <= bs.
 
-Let k := zlen (c_tx_prefix c).
+Local Notation k := (zlen (c_tx_prefix c)).
 
 Definition SX (s : layer) (W : list frame) (ga : Z) : Prop :=
   match tx_state s with
@@ -110,7 +110,12 @@ Proof.
       unfold handle_fc_active. rewrite Hst. cbn [Z.eqb FS_CTS FS_WAIT andb].
       change (timer_timed_out (now s0) (timer_rx_fc s0)) with (timer_timed_out (now s) (timer_rx_fc s)). rewrite Eto. cbn [negb].
       change (timer_timed_out (now s0) (timer_rx_fc s0)) with (timer_timed_out (now s) (timer_rx_fc s)). rewrite Eto.
-      unfold stop_sending; cbv beta iota. cbn. left. left. reflexivity.
+      unfold stop_sending; cbv beta iota.
+      match goal with |- context [tx_state ?x] => destruct (tx_state x) end;
+        [left; cbn [app]; left; reflexivity|..];
+        (match goal with |- context [match active ?x with Some _ => _ | None => inl _ end] => destruct (active x) end;
+         [match goal with |- context [if ?b then _ else _] => destruct b end; left; cbn [app]; left; reflexivity
+         |cbn [tr_evs mk_crash app]; first [left; reflexivity|apply in_or_app; left; left; reflexivity]]).
     + destruct (handle_cts s0 fc Hw Hst Eto) as (s2 & Hh & T1 & T2 & T3 & T4 & T5 & T6 & T7 & T8 & T9).
       rewrite Hh, T9.
       apply Hcomp; [repeat split; try assumption; rewrite T1, Hw; reflexivity|exact T8| |exact T9].
@@ -120,7 +125,12 @@ Proof.
   - (* nothing in the mailbox *)
     change (timer_rx_fc s0) with (timer_rx_fc s). change (now s0) with (now s).
     destruct (timer_timed_out (now s) (timer_rx_fc s)) eqn:Eto.
-    + unfold stop_sending; cbv beta iota. cbn. left. left. reflexivity.
+    + unfold stop_sending; cbv beta iota.
+      match goal with |- context [tx_state ?x] => destruct (tx_state x) end;
+        [left; cbn [app]; left; reflexivity|..];
+        (match goal with |- context [match active ?x with Some _ => _ | None => inl _ end] => destruct (active x) end;
+         [match goal with |- context [if ?b then _ else _] => destruct b end; left; cbn [app]; left; reflexivity
+         |cbn [tr_evs mk_crash app]; first [left; reflexivity|apply in_or_app; left; left; reflexivity]]).
     + apply Hcomp; [exact H0|reflexivity| |exact Eto]. unfold granted. rewrite Efc, Z.add_0_r. exact HX0.
 Qed.
 
@@ -137,6 +147,19 @@ Proof.
   unfold tx_finish. destruct out; cbn [tr_s mk_tr]; [|reflexivity]. unfold stok.
   destruct (lim_inform_fields p (zlen (f_data f)) s) as (A & _ & B & C). rewrite A, B, C, remote_bs_lim_inform. reflexivity.
 Qed.
+
+Lemma fin_fields p S e o i :
+  tx_state (tr_s (tx_finish p S e o i)) = tx_state S /\ active (tr_s (tx_finish p S e o i)) = active S /\
+  remote_bs (tr_s (tx_finish p S e o i)) = remote_bs S /\ tx_block_counter (tr_s (tx_finish p S e o i)) = tx_block_counter S.
+Proof. pose proof (stok_tx_finish p S e o i) as Hs. unfold stok in Hs. injection Hs as H1 H2 H3 H4. auto. Qed.
+
+Ltac fin :=
+  repeat match goal with
+  | |- context [tx_state (tr_s (tx_finish ?p ?S ?e ?o ?i))] => rewrite (proj1 (fin_fields p S e o i))
+  | |- context [active (tr_s (tx_finish ?p ?S ?e ?o ?i))] => rewrite (proj1 (proj2 (fin_fields p S e o i)))
+  | |- context [remote_bs (tr_s (tx_finish ?p ?S ?e ?o ?i))] => rewrite (proj1 (proj2 (proj2 (fin_fields p S e o i))))
+  | |- context [tx_block_counter (tr_s (tx_finish ?p ?S ?e ?o ?i))] => rewrite (proj2 (proj2 (proj2 (fin_fields p S e o i))))
+  end.
 
 (** after a Consecutive Frame that leaves the request alive: the block counter moves on, and the sender
     waits iff the block granted by the peer is used up *)
@@ -156,11 +179,12 @@ Proof.
     destruct (r_is_depleted r1).
     + destruct (0 <? r_remaining r1); unfold stop_sending; cbv beta iota; intros _ Ha;
         match type of Ha with active (tr_s (tx_finish ?p ?S ?e ?o ?i)) = _ =>
-          pose proof (f_equal (fun '(_, x, _, _) => x) (stok_tx_finish p S e o i)) as Hs; cbv beta iota in Hs; rewrite Hs in Ha; cbn in Ha; discriminate end.
+          destruct (fin_fields p S e o i) as (_ & F2 & _); rewrite F2 in Ha; discriminate Ha end.
     + cbn [tx_block_counter set RecordSet.set].
       destruct (negb (rbs =? 0) && (rbs <=? tx_block_counter s + 1)); intros _ _;
         match goal with |- context [tr_s (tx_finish ?p ?S ?e ?o ?i)] =>
-          pose proof (stok_tx_finish p S e o i) as Hs; unfold stok in Hs; injection Hs as H1 H2 H3 H4; rewrite H1, H3, H4; cbn; auto end.
+          destruct (fin_fields p S e o i) as (F1 & _ & F3 & F4); rewrite F1, F3, F4 end;
+        (split; [exact Hrb|split; reflexivity]).
   - destruct (r_is_depleted r1).
     + destruct (0 <? r_remaining r1); unfold stop_sending; cbv beta iota; rewrite tx_finish_msg; discriminate.
     + destruct (negb (rbs =? 0) && _); rewrite tx_finish_msg; discriminate.
@@ -197,18 +221,17 @@ Lemma fsm_tok a s evs W H ga : WF c s -> ST c s W H -> SX s W ga ->
 Proof.
   intros Hwf HS HX. pose proof HS as (done & pending & HH & Hall & Hst).
   pose proof (cf_cap_pos c Hok) as Hcf. pose proof (scan_nonneg W) as Hk0.
-  assert (Hnone : forall S e i, stok S = stok s ->
-            (exists new, tr_evs (tx_finish (c_p c) S (evs ++ e) None i) = evs ++ new /\ has_err new = has_err e) /\
-            SX (tr_s (tx_finish (c_p c) S (evs ++ e) None i)) (W ++ opt_list (tr_msg (tx_finish (c_p c) S (evs ++ e) None i))) ga).
-  { intros S e i Hs. rewrite tx_finish_evs, tx_finish_msg. cbn [opt_list]. rewrite app_nil_r. split; [exists e; auto|].
+  assert (Hnone : forall S i, stok S = stok s ->
+            (exists new, tr_evs (tx_finish (c_p c) S evs None i) = evs ++ new /\ has_err new = false) /\
+            SX (tr_s (tx_finish (c_p c) S evs None i)) (W ++ opt_list (tr_msg (tx_finish (c_p c) S evs None i))) ga).
+  { intros S i Hs. rewrite tx_finish_evs, tx_finish_msg. cbn [opt_list]. rewrite app_nil_r. split; [exists []; rewrite app_nil_r; auto|].
     apply (SX_stok s); [rewrite stok_tx_finish; exact Hs|exact HX]. }
   unfold tx_fsm. destruct (tx_state s) eqn:Est.
   - (* idle: next queued message, if any *)
     destruct Hst as (Hact & Hsb & Hq & HW). rewrite Hq.
     unfold SX in HX. rewrite Est in HX. destruct HX as [Hrem Hga].
     destruct pending as [|m rest].
-    { cbn [map idle_dequeue]. replace evs with (evs ++ []) at 1 2 3 by apply app_nil_r.
-      destruct (Hnone (s <| tx_queue := [] |>) [] false eq_refl) as [He HX']. split; [exact He|exact HX']. }
+    { cbn [map idle_dequeue]. rewrite (app_nil_r evs). apply Hnone. reflexivity. }
     assert (Hm : m_ok m). { rewrite HH in Hall. apply Forall_app in Hall. destruct Hall as [_ Hp]. inversion Hp; assumption. }
     assert (Hnd : r_is_depleted (m_req m) = false).
     { unfold r_is_depleted, r_remaining, m_req, fresh_req. cbn. unfold m_ok, m_n in Hm. destruct (Z.leb_spec (zlen (m_p m) - 0) 0); [lia|reflexivity]. }
@@ -221,25 +244,24 @@ Proof.
       fold (m_req m) in Hem, Hsb'.
       destruct (a <? _) eqn:Ea.
       * destruct (Hsb' eq_refl) as (s' & Es' & Hst' & Hsb1). rewrite Es'. rewrite tx_finish_evs, tx_finish_msg. cbn [opt_list]. rewrite !app_nil_r.
-        split; [exists []; rewrite app_nil_r; auto|]. unfold SX. rewrite (f_equal (fun '(x, _, _, _) => x) (stok_tx_finish _ _ _ _ _)). cbv beta iota. rewrite Hst'. auto.
+        split; [exists []; rewrite app_nil_r; auto|]. unfold SX. match goal with |- context [tx_state (tr_s (tx_finish ?p ?S ?e ?o ?i))] => rewrite (proj1 (fin_fields p S e o i)) end. rewrite Hst'. auto.
       * destruct (Hem eq_refl) as (s' & Es' & Hst' & Hact'). rewrite Es'. rewrite tx_finish_evs, tx_finish_msg. cbn [opt_list].
         split; [exists [EDone (m_id m) true]; rewrite app_nil_l; auto|].
-        unfold SX. rewrite (f_equal (fun '(x, _, _, _) => x) (stok_tx_finish _ _ _ _ _)). cbv beta iota. rewrite Hst'.
-        rewrite scan_snoc. rewrite (scan_sf c Hok bs m f _ Hm Hf Esg). cbn [sc_rem sc_pts]. auto.
+        unfold SX. match goal with |- context [tx_state (tr_s (tx_finish ?p ?S ?e ?o ?i))] => rewrite (proj1 (fin_fields p S e o i)) end. rewrite Hst'.
+        rewrite scan_snoc. rewrite (scan_sf c Hok bs m f _ Hm Hf). cbn [sc_rem sc_pts]. auto.
     + destruct (start_first c Hok s0 (m_id m) (m_p m) (m_x m) (m_t m) a Hm Esg) as (_ & Hcap & Hem & Hsb').
-      fold (m_req m) (m_n m) in Hem, Hsb'. fold (ff_frame c m) in Hem, Hsb'.
+      fold (m_req m) (m_n m) in Hem, Hsb'. fold (ff_frame c m) in Hem, Hsb'. fold (m_n m) in Hcap.
       destruct (_ <=? a) eqn:Ea.
       * destruct (Hem eq_refl) as (s' & Es' & Hst' & Hact' & _). rewrite Es'. rewrite tx_finish_evs, tx_finish_msg. cbn [opt_list]. rewrite app_nil_r.
         split; [exists []; rewrite app_nil_r; auto|].
-        unfold SX. pose proof (stok_tx_finish (c_p c) s' evs (Some (ff_frame c m)) false) as Hs. unfold stok in Hs. injection Hs as S1 S2 S3 S4.
-        rewrite S1, S2, Hst'. rewrite scan_snoc, (scan_ff c Hok bs m _ Hm Esg). cbn [sc_rem sc_pts sc_k].
+        unfold SX. fin. rewrite Hst'. rewrite scan_snoc, (scan_ff c Hok bs m _ Hm Esg). cbn [sc_rem sc_pts sc_k].
         split; [exists (adv_req (m_id m) (m_p m) (m_x m) (m_t m) (ff_cap c (m_n m))); split; [exact Hact'|rewrite r_remaining_adv; reflexivity]|].
         split; [lia|]. split; [lia|]. intros Hb. apply Z.mod_0_l. lia.
       * destruct (Hsb' eq_refl) as (s' & Es' & Hst' & _). rewrite Es'. rewrite tx_finish_evs, tx_finish_msg. cbn [opt_list]. rewrite !app_nil_r.
         split; [exists []; rewrite app_nil_r; auto|].
-        unfold SX. rewrite (f_equal (fun '(x, _, _, _) => x) (stok_tx_finish _ _ _ _ _)). cbv beta iota. rewrite Hst'. auto.
+        unfold SX. match goal with |- context [tx_state (tr_s (tx_finish ?p ?S ?e ?o ?i))] => rewrite (proj1 (fin_fields p S e o i)) end. rewrite Hst'. auto.
   - (* waiting for a Flow Control *)
-    replace evs with (evs ++ []) at 1 2 3 by apply app_nil_r. destruct (Hnone s [] false eq_refl) as [He HX']. split; [exact He|exact HX'].
+    apply Hnone; reflexivity.
   - (* pacing Consecutive Frames *)
     destruct Hst as (m & rest & j & Hp & Hsg & Hj & Hk & Hsb & Hact & Hsq & Hq & HW).
     assert (Hm : m_ok m). { rewrite HH, Hp in Hall. apply Forall_app in Hall. destruct Hall as [_ Hpp]. inversion Hpp; assumption. }
@@ -253,17 +275,16 @@ Proof.
     2: { rewrite (cf_waits_no_pull c a s evs bs _ Hrb Hact (or_intror Hal)). cbn [tr_s tr_msg tr_evs mk_tr opt_list]. rewrite app_nil_r.
          split; [exists []; rewrite app_nil_r; auto|exact HX]. }
     destruct (cf_step c Hok s evs (m_id m) (m_p m) (m_x m) (m_t m) j bs a Hj (proj1 Hcap) Hk Est Hrb Hact Hsq Eto Hal) as (Hmsg & _ & Hmore & Hlast).
-    fold (cf_frame c m j) in Hmsg. rewrite Hmsg. cbn [opt_list]. rewrite scan_snoc.
+    fold (cf_frame c m j) in Hmsg. rewrite Hmsg. cbn [opt_list].
     destruct (Z.ltb_spec (kpos c m j + cf_cap c) (m_n m)) as [Hlt|Hge].
     + destruct (Hmore Hlt) as (Hact' & _ & _ & _ & Hev). rewrite Hev.
       split; [exists []; rewrite app_nil_r; auto|].
       destruct (tx_cf_next a s evs bs _ _ Hrb Hmsg Hact') as (N1 & N2 & N3).
-      rewrite (scan_cf_more c Hok bs m j _ Hm Hsg Hj Hlt Hrem).
       assert (Hk' : kpos c m (j + 1) = kpos c m j + cf_cap c) by (unfold kpos; lia).
-      unfold SX. rewrite N3, Est. cbn [sc_k sc_rem sc_pts].
+      unfold SX. rewrite N3, Est. rewrite !scan_snoc, !(scan_cf_more c Hok bs m j _ Hm Hsg Hj Hlt Hrem). cbn [sc_k sc_rem sc_pts].
       destruct (Z.eqb_spec bs 0) as [Hz|Hnz]; cbn [negb andb].
       * (* block size 0: never waits, never a point *)
-        subst bs. cbn [Z.ltb andb]. rewrite Z.add_0_r.
+        assert (Hlt0 : (0 <? bs) = false) by (apply Z.ltb_ge; lia). rewrite Hlt0. cbn [andb]. rewrite Z.add_0_r.
         split; [eexists; split; [exact Hact'|rewrite r_remaining_adv, Hk'; reflexivity]|]. split; [lia|]. split; [exact Hga|]. split; [exact N1|]. intros Hb; lia.
       * assert (Hbp : 0 < bs) by lia. specialize (Hbc Hbp). destruct (Z.ltb_spec 0 bs); [|lia]. cbn [andb].
         rewrite Hbc, (mod_step _ bs Hbp Hk0).
@@ -278,8 +299,7 @@ Proof.
            exfalso. apply Ept. rewrite <- Z.add_mod_idemp_l by lia. replace (sc_k (scan k bs W) mod bs + 1) with (1 * bs) by lia. apply Z.mod_mul. lia.
     + destruct (Hlast Hge) as (Hst' & Hact' & Hev). rewrite Hev.
       split; [exists [EDone (m_id m) true]; auto|].
-      rewrite (scan_cf_last c Hok bs m j _ Hm Hsg Hj Hk Hge Hrem).
-      unfold SX. rewrite Hst'. cbn [sc_rem sc_pts]. auto.
+      unfold SX. rewrite Hst'. rewrite !scan_snoc, !(scan_cf_last c Hok bs m j _ Hm Hsg Hj Hk Hge Hrem). cbn [sc_rem sc_pts]. auto.
   - (* a Single Frame held back by the rate limiter *)
     destruct Hst as (m & rest & f & Hp & Hf & Hsb & Hq & HW). rewrite Hsb.
     assert (Hm : m_ok m). { rewrite HH, Hp in Hall. apply Forall_app in Hall. destruct Hall as [_ Hpp]. inversion Hpp; assumption. }
@@ -287,25 +307,21 @@ Proof.
     destruct (_ <=? a).
     + unfold stop_sending; cbv beta iota. rewrite tx_finish_evs, tx_finish_msg. cbn [opt_list].
       split; [eexists; split; [reflexivity|]; destruct (active _); reflexivity|].
-      unfold SX. rewrite (f_equal (fun '(x, _, _, _) => x) (stok_tx_finish _ _ _ _ _)). cbv beta iota. cbn [tx_state set RecordSet.set].
-      assert (Hsg : is_single c (m_n m) = true).
-      { destruct (is_single c (m_n m)) eqn:E; [reflexivity|]. rewrite (seg_multi c m E) in Hf. discriminate Hf || (injection Hf as _ Hf'; destruct (n_cf c (m_n m)); discriminate). }
-      rewrite scan_snoc, (scan_sf c Hok bs m f _ Hm Hf Hsg). cbn [sc_rem sc_pts]. auto.
-    + replace evs with (evs ++ []) at 1 2 3 by apply app_nil_r. destruct (Hnone s [] false eq_refl) as [He HX']. split; [exact He|].
-      unfold SX in HX' |- *. exact HX'.
+      unfold SX. match goal with |- context [tx_state (tr_s (tx_finish ?p ?S ?e ?o ?i))] => rewrite (proj1 (fin_fields p S e o i)) end. cbn [tx_state set RecordSet.set].
+      rewrite scan_snoc, (scan_sf c Hok bs m f _ Hm Hf). cbn [sc_rem sc_pts]. auto.
+    + apply Hnone; reflexivity.
   - (* a First Frame held back by the rate limiter *)
     destruct Hst as (m & rest & Hp & Hsg & Hk & Hsb & Hact & Hsq & Hq & HW). rewrite Hsb.
     assert (Hm : m_ok m). { rewrite HH, Hp in Hall. apply Forall_app in Hall. destruct Hall as [_ Hpp]. inversion Hpp; assumption. }
     pose proof HX as HX0. unfold SX in HX0. rewrite Est in HX0. destruct HX0 as [Hrem Hga].
     destruct (_ <=? a).
     + rewrite tx_finish_evs, tx_finish_msg. cbn [opt_list]. split; [exists []; rewrite app_nil_r; auto|].
-      unfold SX. pose proof (stok_tx_finish (c_p c) (start_rx_fc_timer c (s <| tx_standby := None |>) <| tx_state := TxWaitFC |>) evs (Some (ff_frame c m)) false) as Hs.
-      unfold stok in Hs. injection Hs as S1 S2 S3 S4. rewrite S1, S2. cbn [tx_state active start_rx_fc_timer set RecordSet.set].
+      unfold SX. fin. cbn [tx_state active start_rx_fc_timer set RecordSet.set].
       rewrite scan_snoc, (scan_ff c Hok bs m _ Hm Hsg). cbn [sc_rem sc_pts sc_k].
       assert (Hk1 : kpos c m 1 = ff_cap c (m_n m)) by (unfold kpos; lia).
       split; [eexists; split; [exact Hact|unfold m_adv; rewrite r_remaining_adv, Hk1; reflexivity]|].
       split; [lia|]. split; [lia|]. intros Hb. apply Z.mod_0_l. lia.
-    + replace evs with (evs ++ []) at 1 2 3 by apply app_nil_r. destruct (Hnone s [] false eq_refl) as [He HX']. split; [exact He|exact HX'].
+    + apply Hnone; reflexivity.
 Qed.
 
 (** *** the transmit state machine never writes the Flow Control mailbox *)
@@ -385,11 +401,12 @@ Proof.
   pose proof (process_tx_by_input c s) as Hp. pose proof (Ks_tx_input c s) as Hi. pose proof (WF_tx_input c s) as Hw.
   destruct (tx_input c s) as [s1|] eqn:Ei.
   2: { (* only a Flow Control answer *)
-       right. revert Ei. unfold tx_input, process_tx. destruct (pending_fc s); [|discriminate]. cbv zeta.
+       right. pose proof (process_tx_nocrash c s Hok Hwf) as Hc. revert Ei Hc. unfold tx_input, process_tx.
+       destruct (pending_fc s); [|discriminate]. cbv zeta.
        destruct (negb (p_listen (c_p c))); [|discriminate]. intros _.
        destruct (opt_eqb _ _); (destruct (pending_fc_status _) as [st|]; [destruct (make_flow_control c st)|]);
-         cbn [tr_s tr_evs mk_tr mk_crash]; try (split; [reflexivity|split; [apply (SX_stok s); [reflexivity|exact HX]|reflexivity]]).
-       all: exfalso; pose proof (process_tx_nocrash c s Hok Hwf) as Hc; revert Hc; unfold process_tx; idtac. }
+         cbn [tr_s tr_evs tr_crash mk_tr mk_crash]; intros Hc; try discriminate Hc;
+         (split; [reflexivity|split; [apply (SX_stok s); [reflexivity|exact HX]|reflexivity]]). }
   rewrite Hp. unfold process_tx_main. specialize (Hi s1 eq_refl). specialize (Hw s1 Hwf eq_refl).
   assert (Hs1 : stok s1 = stok s /\ last_fc s1 = last_fc s).
   { revert Ei. unfold tx_input. destruct (pending_fc s); [|intros E; injection E as <-; auto].
